@@ -508,7 +508,10 @@ func (x *Exec) builtin(fr *Frame, b *ssa.Builtin, call *ssa.CallCommon, args []V
 			return &Scalar{types.Typ[types.Int], v.Len}
 		case *Scalar:
 			if v.t.Sort == SString {
-				return &Scalar{types.Typ[types.Int], x.sc.def(app(SInt, "str.len", v.t), "len")}
+				l := x.sc.def(app(SInt, "str.len", v.t), "len")
+				// a Go string is shorter than the address space (same bound as slice capacities)
+				x.assumeHere(le(l, bigLit("4611686018427387904")))
+				return &Scalar{types.Typ[types.Int], l}
 			}
 			if mt, ok := under(call.Args[0].Type()).(*types.Map); ok {
 				l := x.sc.def(x.mapLen(x.st, call.Args[0].Type(), mt, v.t), "len")
